@@ -4,6 +4,7 @@ import (
 	"encoding/json"
 	"fmt"
 	"io"
+	"math/rand"
 	"sort"
 	"strings"
 
@@ -12,6 +13,7 @@ import (
 	"gmsverif/lib/dml2"
 	"gmsverif/lib/dml2gen"
 	. "gmsverif/lib/dmlast"
+	"gmsverif/lib/sqlast"
 	"gmsverif/lib/vio"
 )
 
@@ -42,6 +44,7 @@ type c15Event struct {
 	PreProbes []dml2.Probe         `json:"preprobes"`
 	Probes    []dml2.Probe         `json:"probes"`
 	SQL       string               `json:"sql,omitempty"`
+	Setup     []string             `json:"setup,omitempty"` // sfault: what was created on the copy before the statement
 	Tags      []string             `json:"tags,omitempty"`
 }
 
@@ -53,25 +56,31 @@ type c15Case struct {
 	ids   []int
 	// x-histories (foreign keys / triggers: outside the SQLTables grammar): own fixture, events
 	// xschema / xfault / xstmt, judged by "a failed statement changes no table" alone
-	x     string // "" | "fk" | "trig"
+	famR  *rand.Rand // gen mode: draws the row-source-failure families (nil: none)
+	x     string     // "" | "fk" | "trig"
 	setup func() (*dml2.Fixture, []string, error)
 }
 
 type c15Runner struct {
-	o       opts
-	w       *vio.Writer
-	rep     *vio.Report
-	prober  *dml2.Prober
-	kinds   map[string]int
-	faults  int
-	fired   int
-	natural map[string]int
-	maxN    int
-	trunc   int
-	changed int
-	rowpos  map[string]int
-	xmulti  int // x fault runs whose row edits reached another table than the statement's (cascade / trigger target)
-	xhist   map[string]int
+	o        opts
+	w        *vio.Writer
+	rep      *vio.Report
+	prober   *dml2.Prober
+	kinds    map[string]int
+	faults   int
+	fired    int
+	natural  map[string]int
+	maxN     int
+	trunc    int
+	changed  int
+	rowpos   map[string]int
+	famCtr   int
+	srcRuns  int // row-source failures (k >= 1)
+	srcLater int
+	srcTxn   int
+	srcKinds map[string]int
+	xmulti   int // x fault runs whose row edits reached another table than the statement's (cascade / trigger target)
+	xhist    map[string]int
 }
 
 func union(a, b map[string][][]Value) map[string][][]Value {
@@ -226,6 +235,147 @@ func (r *c15Runner) history(c *c15Case) {
 		if !same(pre, post) {
 			r.changed++
 		}
+		if c.famR != nil && c.x == "" && c.famR.Intn(100) < 18 {
+			r.sourceFaults(c, i, id, main)
+		}
+	}
+}
+
+const bigMax = "9223372036854775807"
+
+// sourceFaults: a family of non-IGNORE INSERT / REPLACE statements of m fresh rows whose ROW SOURCE fails at source
+// row k (k = 0: it does not fail), each run on a fresh copy of the state after statement i.  Mechanisms:
+//
+//	signal  CREATE TRIGGER .. BEFORE INSERT .. IF NEW.c = <poison> THEN SIGNAL, VALUES list whose k-th row carries the poison
+//	select  INSERT / REPLACE .. SELECT .. FROM vsrc ORDER BY ord, one INT expression c + p * 9223372036854775807 * 2
+//	        (BIGINT overflow exactly on the row with p = 1)
+//
+// in autocommit mode or inside START TRANSACTION .. COMMIT (the tables are read after the COMMIT).
+func (r *c15Runner) sourceFaults(c *c15Case, i, id int, main *dml2.Fixture) {
+	tn := c.names[c.famR.Intn(len(c.names))]
+	t := main.Tabs[tn]
+	cols := dml2gen.Insertable(t)
+	if t.AutoCol() > 0 || len(cols) == 0 {
+		return
+	}
+	r.famCtr += 40
+	pl := dml2gen.NewPlaced(c.famR, 400+r.famCtr)
+	m := 2 + c.famR.Intn(2)
+	rows := pl.FreshRows(t, cols, m)
+	// the poisoned column: an INT column if there is one (preferably not a key column)
+	pc := -1
+	for pass := 0; pass < 2 && pc < 0; pass++ {
+		for j, col := range cols {
+			inPK := false
+			for _, k := range t.PK {
+				inPK = inPK || k == col
+			}
+			if t.Cols[col-1].Ty == "i" && (pass == 1 || !inPK) {
+				pc = j
+				break
+			}
+		}
+	}
+	mech := "signal"
+	if pc >= 0 && c.famR.Intn(2) == 0 {
+		mech = "select"
+	}
+	if pc < 0 {
+		pc = len(cols) - 1
+	}
+	mode, txn := "plain", c.famR.Intn(2) == 0
+	if c.famR.Intn(3) == 0 {
+		mode = "replace"
+	}
+	isInt := t.Cols[cols[pc]-1].Ty == "i"
+	poison := sqlast.Str("zzq")
+	if isInt {
+		poison = sqlast.Int(9999)
+	}
+	tags := []string{mech, map[string]string{"plain": "insert", "replace": "replace"}[mode], map[bool]string{false: "autocommit", true: "txn"}[txn]}
+	head := map[string]string{"plain": "INSERT INTO", "replace": "REPLACE INTO"}[mode]
+	for k := 0; k <= m; k++ {
+		fx := r.fixture(c, i+1)
+		krows := make([][]Cell, m)
+		for j := range rows {
+			krows[j] = append([]Cell{}, rows[j]...)
+		}
+		var setup []string
+		var sql string
+		w := len(t.Cols)
+		if mech == "signal" {
+			if k >= 1 {
+				krows[k-1][pc] = ValCell(poison)
+			}
+			setup = append(setup, fmt.Sprintf("CREATE TRIGGER vt BEFORE INSERT ON %s FOR EACH ROW BEGIN IF NEW.c%d = %s THEN SIGNAL SQLSTATE '45000' SET MESSAGE_TEXT = 'verif-signal'; END IF; END",
+				tn, cols[pc], poison.SQL()))
+			sql = SQL(Insert(tn, mode, cols, krows, nil), w)
+		} else {
+			def := "CREATE TABLE vsrc (ord INT PRIMARY KEY"
+			var names, sel []string
+			for j, col := range cols {
+				ty := "INT"
+				if t.Cols[col-1].Ty == "s" {
+					ty = "VARCHAR(32) COLLATE utf8mb4_0900_bin"
+				}
+				def += fmt.Sprintf(", c%d %s", col, ty)
+				names = append(names, fmt.Sprintf("c%d", col))
+				if j == pc {
+					sel = append(sel, fmt.Sprintf("c%d + p * %s * 2", col, bigMax))
+				} else {
+					sel = append(sel, fmt.Sprintf("c%d", col))
+				}
+			}
+			setup = append(setup, def+", p BIGINT)")
+			for j, row := range krows {
+				vals := []string{fmt.Sprint(j + 1)}
+				for _, cell := range row {
+					vals = append(vals, cell.E.V.SQL())
+				}
+				p := "0"
+				if j+1 == k {
+					p = "1"
+				}
+				setup = append(setup, fmt.Sprintf("INSERT INTO vsrc VALUES (%s, %s)", strings.Join(vals, ", "), p))
+			}
+			sql = fmt.Sprintf("%s %s (%s) SELECT %s FROM vsrc ORDER BY ord", head, tn, strings.Join(names, ", "), strings.Join(sel, ", "))
+		}
+		for _, q := range setup {
+			if res := fx.Sess.Exec(q); res.Kind == "err" || res.Kind == "panic" {
+				vio.Fatal("history %d: source-fault set-up failed: %s: %s", c.h, q, res.Msg)
+			}
+		}
+		fe := c15Event{Ev: "sfault", H: c.h, ID: id, Stmt: Insert(tn, mode, cols, krows, nil), K: k, N: m, Ops: []string{}, PreProbes: []dml2.Probe{},
+			Probes: []dml2.Probe{}, Setup: setup, Tags: tags}
+		fe.Pre = dml2.ReadAll(fx.Sess, c.names)
+		if txn {
+			fx.Sess.Exec("START TRANSACTION")
+		}
+		fe.SQL = sql
+		fe.Reply = dml2.ToReply(fx.Sess.Exec(sql), false)
+		if txn {
+			fx.Sess.Exec("COMMIT")
+		}
+		fe.Post = dml2.ReadAll(fx.Sess, c.names)
+		if r.o.probes {
+			fe.Probes = r.prober.All(fx, c.h, union(fe.Post, fe.Pre))
+		}
+		r.w.Write(fe)
+		r.rep.Cases++
+		if k >= 1 {
+			r.rep.Nontrivial++
+			r.srcRuns++
+			r.srcKinds[strings.Join(tags, ",")+"->"+fe.Reply.Kind+":"+fe.Reply.Class]++
+			if k >= 2 {
+				r.srcLater++
+			}
+			if txn {
+				r.srcTxn++
+			}
+		}
+		if show {
+			fmt.Printf("--   source fault %v k=%d/%d: %s -> %s %s unchanged=%v\n", tags, k, m, sql, fe.Reply.Kind, fe.Reply.Class, same(fe.Pre, fe.Post))
+		}
 	}
 }
 
@@ -253,7 +403,7 @@ func xCase(seed int64, h int) *c15Case {
 func runC15(o opts, w *vio.Writer, rep *vio.Report) {
 	logrus.SetOutput(io.Discard)
 	r := &c15Runner{o: o, w: w, rep: rep, prober: dml2.NewProber(), kinds: map[string]int{}, natural: map[string]int{}, rowpos: map[string]int{},
-		xhist: map[string]int{}}
+		xhist: map[string]int{}, srcKinds: map[string]int{}}
 	switch o.mode {
 	case "gen":
 		for h := o.from; h < o.from+o.n; h++ {
@@ -270,7 +420,7 @@ func runC15(o opts, w *vio.Writer, rep *vio.Report) {
 				continue
 			}
 			hist, initial := dml2gen.C15History(o.seed*1000003 + int64(h))
-			c := &c15Case{h: h, names: hist.Names, tabs: initial, stmts: hist.Stmts}
+			c := &c15Case{h: h, names: hist.Names, tabs: initial, stmts: hist.Stmts, famR: rand.New(rand.NewSource((o.seed*1000003 + int64(h)) ^ 0x5fa17))}
 			for k := range hist.Stmts {
 				c.ids = append(c.ids, h*1000+k+1)
 			}
@@ -322,6 +472,10 @@ func runC15(o opts, w *vio.Writer, rep *vio.Report) {
 	rep.Extra["changed"] = r.changed
 	rep.Extra["probes"] = r.prober.N
 	rep.Extra["probes_via_index"] = r.prober.Ix
+	rep.Extra["source_fault_runs"] = r.srcRuns
+	rep.Extra["source_fault_runs_later_row"] = r.srcLater
+	rep.Extra["source_fault_runs_in_txn"] = r.srcTxn
+	rep.Extra["source_fault_kinds"] = r.srcKinds
 	rep.Extra["x_histories"] = r.xhist
 	rep.Extra["x_fault_runs_reaching_other_tables"] = r.xmulti
 }
